@@ -1837,8 +1837,24 @@ func generateHistory(seed int64, index int, prof *profile, nOps int, path string
 		}
 		return line
 	}
+	// drawing an op reads the simulator's state; on a state that is internally inconsistent (which only a broken
+	// implementation produces) a draw can fail: the history then ends here, and what was generated so far is kept —
+	// the monitors see the inconsistent state in it
+	draw := func() (line string, ok bool) {
+		defer func() {
+			if r := recover(); r != nil {
+				fmt.Fprintf(os.Stderr, "generator: history %d ends early, cannot draw from this state: %v\n", index, r)
+				line, ok = "", false
+			}
+		}()
+		return g.nextOp(), true
+	}
 	for n := 0; n < nOps && !g.sim.Stopped; n++ {
-		if err := step(fix(g.nextOp())); err != nil {
+		line, ok := draw()
+		if !ok {
+			return hs, nil
+		}
+		if err := step(fix(line)); err != nil {
 			return nil, err
 		}
 	}
